@@ -46,15 +46,19 @@ Definition classify_iterate_site (s : string * string * string * string) : optio
                 "FixedActiveSetNewtonMethod.create_step"] then Some ClippedStep else None
   | "Iterate" =>
       if String.eqb f "Iterate.copy" && String.eqb arg "np.copy(self.x)" then Some CopyOf
-      else if String.eqb f "Iterate.clipped" && String.eqb arg "xclip" then Some Clipped
-      else if String.eqb f "StepResult.iterate" && String.eqb arg "xn" then Some ClippedStep
-      else if String.eqb f "Transformation.create_transformed_iterate" && String.eqb arg "x" then Some Start
-      else if String.eqb f "GlobalizedNewtonMethod.step" && String.eqb arg "iterate.x - dx" then Some LineSearchTrial
+      else if String.eqb f "Iterate.clipped" && prefix "xclip" arg then Some Clipped
+      else if String.eqb f "StepResult.iterate" && prefix "xn <- self.xn" arg then Some ClippedStep
+      else if String.eqb f "Transformation.create_transformed_iterate" && prefix "x <- self.transform_sol(x, y)" arg then Some Start
+      else if String.eqb f "GlobalizedNewtonMethod.step" then
+        (* the Armijo trial point: in the box only if it is the clipped expression *)
+        if String.eqb arg "next_x <- np.clip(iterate.x - dx, problem.var_lb, problem.var_ub)" then Some Clipped
+        else Some LineSearchTrial
       else None
   | _ => None
   end.
-(* LineSearchTrial is NOT an in-box origin: it is the known finding F8 (Globalized line search); the
-   obligation lists it explicitly so that a second unclipped site is not covered by it *)
+(* LineSearchTrial is NOT an in-box origin: it was finding F8 (Globalized line search, repaired by 67231bb: the trial
+   point is now np.clip(iterate.x - dx, var_lb, var_ub)); the obligation says there is no such site, so the old code
+   or a second unclipped site is reported *)
 Definition iterate_site_ok (s : string * string * string * string) : bool :=
   match classify_iterate_site s with Some _ => true | None => false end.
 Definition unclipped_sites (l : list (string * string * string * string)) :=
@@ -90,6 +94,8 @@ Definition classify_raise (s : string * string * string * list string) : option 
   else if String.eqb m "deriv_check.py" && prefix "DerivError(" exc then Some Deliberate
   else if String.eqb m "eval.py" && prefix "EvalError(" exc then Some Converted                    (* caught by compute_step / the prelude *)
   else if prefix "linear_solver/" m && prefix "LinearSolverError(" exc then Some Converted          (* caught by the step solvers *)
+  else if String.eqb m "step/cond_estimate.py" && prefix "LinearSolverError('Condition estimate broke down')" exc
+       then Some Converted                                                                          (* caught by StepSolver.estimate_rcond (required guard) *)
   else if prefix "step/solver/" m && String.eqb exc "StepSolverError" then Some Converted           (* caught by compute_step *)
   else if String.eqb m "step/solver/symmetric_step_solver.py" && prefix "LinearSolverError('Invalid matrix inertia')" exc
           && mem "LinearSolverError" handlers then Some Converted
@@ -125,7 +131,6 @@ Definition numeric_asserts : list (string * string * string) :=
     ("solver.py", "rho != -1.0", "C16_trial_penalties (rho > 0)");
     ("solver.py", "path_dist >= direct_dist or np.isclose(path_dist, direct_dist)", "C12_dist_factor");
     ("step/cond_estimate.py", "0 < min_prob < 1", "constant"); ("step/cond_estimate.py", "num_its > 0", "size >= 1 (empty systems are skipped)");
-    ("step/cond_estimate.py", "y.dot(yprod) > 0.0", "y^T (A^T A)^-k y > 0 for nonsingular A (exact arithmetic; rounding not covered)");
     ("step/newton_control.py", "min_tau >= 0", "minimum of positive entries");
     ("step/solver/asymmetric_step_solver.py", "(curr_cols[:-1] <= curr_cols[1:]).all()", "unused since the fix of F16");
     ("step/solver/asymmetric_step_solver.py", "(0 <= curr_cols).all()", "unused since the fix of F16");
